@@ -68,7 +68,7 @@ func C07(r *vf.Run) {
 				straight = append(straight, m)
 			}
 		}
-		n := r.N(6400, 640000)
+		n := r.N(6400, 6400000)
 		chunks := 320
 		r.Parallel(runtime.NumCPU(), chunks, func(wi, ci int) {
 			rig, _ := rigPool.Get().(*cpuRig)
